@@ -210,6 +210,17 @@ def cases(seed, scale):
                                         silence_level=3).recurrence_rate()
                 except Exception:
                     pass
+                # multi-dimensional series with different numbers of
+                # components: rejected, or computed inside the buffers
+                for dx, dy in ((3, 2), (2, 3), (2, 2), (4, 1)):
+                    xm = g.standard_normal((Tx + 1, dx))
+                    ym = g.standard_normal((Ty + 1, dy))
+                    try:
+                        CrossRecurrencePlot(xm, ym, threshold=0.5,
+                                            metric=metric, silence_level=3
+                                            ).recurrence_rate()
+                    except Exception:
+                        pass
             try:
                 JointRecurrencePlot(x, y, threshold=(0.5, 0.5),
                                     silence_level=3).recurrence_rate()
